@@ -631,9 +631,12 @@ def size_class(s):
 
 def report(ctx, case, fails, corr_item=None):
     pub = {k: case[k] for k in ("kind", "fmt", "flags", "specs")}
+    known = {f.get("signature") for f in ctx.findings if f.get("property") == ctx.prop and f.get("status") == "known"}
     for sig, clause, detail in fails:
+        # the model reproduces the known findings exactly, so a known finding never explains a broken
+        # obligation / correspondence: only a NEW failing input is attached to the broken item
         ctx.violation(sig, f"{clause} fails on the real {case['kind']} generator: {detail} ; input {json.dumps(pub)}",
-                      dict(case=pub, clause=clause, detail=detail), broken_item=corr_item)
+                      dict(case=pub, clause=clause, detail=detail), broken_item=None if sig in known else corr_item)
 
 
 def run(ctx):
@@ -651,46 +654,63 @@ def run(ctx):
     for _ in range(n2):
         cases.append(gen_product_case(rng))
 
-    outs = [call_case(c) for c in cases]
-    out_lines = ctx.lean.driver("Samples", [driver_line(c) for c in cases], timeout=ctx.scale(900, 6000))
-    if len(out_lines) != len(cases):
-        raise Infra(f"driver returned {len(out_lines)} lines for {len(cases)} cases")
     mismatches = 0
-    for idx, (case, out, model) in enumerate(zip(cases, outs, out_lines)):
-        real = canon_real(out)
-        n_out = len(out[1]) if out[0] == "ok" else -1
-        ctx.case(key=case_key(case), nontrivial=(n_out >= 3 or out[0] == "err"))
-        ctx.traces_validated += 1
-        ctx.count("kind:" + case["kind"])
-        ctx.count("dtype:float%d" % case["fmt"])
-        ctx.count("class:" + str(case.get("cls", "?")).split(":")[0])
-        ctx.count("size:" + size_class(case["specs"][0][0]))
-        ctx.count("outcome:" + (out[1] if out[0] == "err" else "ok"))
-        if case["kind"] == "rs":
-            for k in FLAGS:
-                if case["flags"][k]:
-                    ctx.count("flag:" + k)
-        if idx < ncorpus + 6:
-            ctx.sample(dict(case={k: case[k] for k in ("kind", "fmt", "flags", "specs")}, real=real[:300]), limit=10)
-        corr_item = None
-        if model != real:
-            mismatches += 1
-            if mismatches <= 3:
-                detail = dict(case={k: case[k] for k in ("kind", "fmt", "flags", "specs")}, model=model[:600], impl=real[:600])
-                corr_item = ctx.broken("correspondence:Samples", json.dumps(detail))
-        fails = prop_failures(case, out)
-        report(ctx, case, fails, corr_item)
-        if corr_item is not None and not fails:
-            # directed search around the disagreeing input
-            for c2 in neighbours(rng, case):
-                f2 = prop_failures(c2, call_case(c2))
-                ctx.case(key=case_key(c2), nontrivial=True)
-                if f2:
-                    report(ctx, c2, f2, corr_item)
-                    break
+    witness_ok = 0
+    CH = 4000
+    for base in range(0, len(cases), CH):
+        chunk = cases[base:base + CH]
+        # real code first; keep only the canonical line and the property verdict (arrays can be large)
+        evals = []
+        for case in chunk:
+            out = call_case(case)
+            evals.append((canon_real(out), prop_failures(case, out), len(out[1]) if out[0] == "ok" else -1,
+                          out[1] if out[0] == "err" else "ok"))
+            del out
+        out_lines = ctx.lean.driver("Samples", [driver_line(c) for c in chunk], timeout=ctx.scale(900, 3000))
+        if len(out_lines) != len(chunk):
+            raise Infra(f"driver returned {len(out_lines)} lines for {len(chunk)} cases")
+        for off, (case, (real, fails, n_out, outcome), model) in enumerate(zip(chunk, evals, out_lines)):
+            idx = base + off
+            ctx.case(key=case_key(case), nontrivial=(n_out >= 3 or outcome != "ok"))
+            ctx.traces_validated += 1
+            ctx.count("kind:" + case["kind"])
+            ctx.count("dtype:float%d" % case["fmt"])
+            ctx.count("class:" + str(case.get("cls", "?")).split(":")[0])
+            ctx.count("size:" + size_class(case["specs"][0][0]))
+            ctx.count("outcome:" + outcome)
+            if case["kind"] == "rs":
+                for k in FLAGS:
+                    if case["flags"][k]:
+                        ctx.count("flag:" + k)
+            if idx < ncorpus + 6:
+                ctx.sample(dict(case={k: case[k] for k in ("kind", "fmt", "flags", "specs")}, real=real[:300]), limit=10)
+            if case.get("expect"):
+                # negation witnesses of Props/C19.lean replayed on the real code: the finding must still show
+                if any(sig.startswith(case["expect"]) for sig, _, _ in fails):
+                    witness_ok += 1
+                else:
+                    ctx.notes.setdefault("witness_not_reproduced", []).append(case.get("theorem"))
+            corr_item = None
+            if model != real:
+                mismatches += 1
+                if mismatches <= 3:
+                    detail = dict(case={k: case[k] for k in ("kind", "fmt", "flags", "specs")}, model=model[:600], impl=real[:600])
+                    corr_item = ctx.broken("correspondence:Samples", json.dumps(detail))
+            report(ctx, case, fails, corr_item)
+            if corr_item is not None and not corr_item["has_failing_input"]:
+                # directed search around the disagreeing input
+                for c2 in neighbours(rng, case):
+                    f2 = prop_failures(c2, call_case(c2))
+                    ctx.case(key=case_key(c2), nontrivial=True)
+                    if f2:
+                        report(ctx, c2, f2, corr_item)
+                        if corr_item["has_failing_input"]:
+                            break
+    ctx.notes["witnesses_reproduced_on_real_code"] = witness_ok
     ctx.notes["correspondence_mismatches"] = mismatches
     ctx.notes["corpus_cases"] = ncorpus
     ctx.obligation("correspondence:Samples(model == real generators on every seeded parameter combination)", mismatches == 0, kind="correspondence")
+    search_target_func(ctx, rng, ctx.scale(120, 3000))
     if broken and not any(b["has_failing_input"] for b in broken):
         # a Lean obligation broke (model file edited?): the search above over all cases is the directed search;
         # extend it with extra seeded cases before giving up
@@ -705,6 +725,69 @@ def run(ctx):
                     break
 
 
+def target_func_failure(case, tf):
+    """None if the generator with target_func=tf returns exactly the filtered Cartesian product of the real 1-D samples,
+    'skip' when a 1-D call fails or is empty, else a (signature, text) pair."""
+    np, U = _load()
+    kind = case["kind"]
+    f = fmt(case["fmt"])
+    flags = dict(case["flags"], unique=True)
+    ones = [call_rs(f, flags, sp) for sp in case["specs"]]
+    if any(o[0] == "err" or len(o[1]) == 0 for o in ones):
+        return "skip"
+    kw = {KW[k]: bool(flags[k]) for k in FLAGS if k != "unique"}
+    v = lambda b: None if b is None else f.val(b)  # noqa: E731
+    tup = lambda xs: None if all(x is None for x in xs) else tuple(v(x) for x in xs)  # noqa: E731
+    specs = case["specs"]
+    try:
+        with warnings.catch_warnings():
+            warnings.simplefilter("ignore")
+            fn = U.real_pair_samples if kind == "pair" else U.real_triple_samples
+            r = fn(size=tuple(sp[0] for sp in specs), dtype=f.dtype, min_value=tup([sp[1] for sp in specs]),
+                   max_value=tup([sp[2] for sp in specs]), target_func=tf, **kw)
+            a = [o[1] for o in ones]
+            if kind == "pair":
+                e1 = np.array([x for y in a[1] for x in a[0]], dtype=f.dtype)
+                e2 = np.array([y for y in a[1] for x in a[0]], dtype=f.dtype)
+                keep = (e2 >= 0) if tf == "add" else (abs(e1) <= e2)
+                exp = [e1[keep], e2[keep]]
+            else:
+                e1 = np.array([x for x in a[0] for y in a[1] for z in a[2]], dtype=f.dtype)
+                e2 = np.array([y for x in a[0] for y in a[1] for z in a[2]], dtype=f.dtype)
+                e3 = np.array([z for x in a[0] for y in a[1] for z in a[2]], dtype=f.dtype)
+                keep = (abs(e1) <= e2) & (e3 >= 0)
+                e1, e2, e3 = e1[keep], e2[keep], e3[keep]
+                if not flags["nan"]:
+                    a2 = abs(e2)
+                    keep = (a2 == 0) | (abs(e1) < f.fi.max / a2)
+                    e1, e2, e3 = e1[keep], e2[keep], e3[keep]
+                exp = [e1, e2, e3]
+    except Exception as e:  # noqa: BLE001
+        return ("target_func:unexpected-exception:" + exc_name(e), f"{kind} generator with target_func={tf} raised {e}")
+    nb = lambda arr: [f.qnan if f.isnan(b) else b for b in bits_of(f, arr)]  # noqa: E731
+    if any(nb(x) != nb(y) for x, y in zip(r, exp)):
+        return ("clause:target_func:" + tf, f"{kind} generator with target_func={tf} is not the filtered Cartesian product")
+    return None
+
+
+def search_target_func(ctx, rng, n):
+    """Search-only clause: with target_func the pair/triple generators return exactly the elements of the Cartesian
+    product (in order) that satisfy the predicate of the code.  Not modelled in Lean."""
+    for _ in range(n):
+        kind = rng.choice(["pair", "pair", "triple"])
+        tf = rng.choice(["add", "mul"]) if kind == "pair" else "fma"
+        case = gen_product_case(rng)
+        while case["kind"] != kind:
+            case = gen_product_case(rng)
+        res = target_func_failure(case, tf)
+        if res == "skip":
+            continue
+        ctx.case(key=case_key(case) + tf, nontrivial=True)
+        ctx.count("target_func:" + tf)
+        if res is not None:
+            ctx.violation(res[0], res[1], dict(case={k: case[k] for k in ("kind", "fmt", "flags", "specs")}, target_func=tf))
+
+
 def replay(ctx, obj):
     rp = obj.get("replay") or {}
     if "case" not in rp:
@@ -713,6 +796,11 @@ def replay(ctx, obj):
         return 1
     _load()
     case = rp["case"]
+    if "target_func" in rp:
+        res = target_func_failure(case, rp["target_func"])
+        print("input :", json.dumps(case), "target_func =", rp["target_func"])
+        print("result:", res)
+        return 0 if res in (None, "skip") else 1
     out = call_case(case)
     print("input :", json.dumps(case))
     print("real  :", canon_real(out)[:2000])
@@ -729,11 +817,15 @@ def replay(ctx, obj):
 LEVEL_TEXT = ("Proof (partial where the code-as-written violates the property). Theorems (Lean kernel, every size, bound and flag value, all three "
               "dtypes): the stepping core start + floor(i*step/(n-1)) starts at start, ends at end, is non-decreasing, strictly increasing iff "
               "step >= n-1, with consecutive gaps differing by at most one (step); the model of real_samples never recurses deeper than one level "
-              "and raises exactly in the characterised cases (fuel_enough, error_iff_*); no subnormals unless requested and strictly increasing "
-              "output when unique, for every input (no_subnormal, sorted_unique); within bounds, bounds contained, sorted, equally spaced up to one "
-              "unit under the exact side conditions that exclude the listed findings (*_partial) with a negation witness for each excluded class; "
-              "pair/triple/complex constructors equal the Cartesian products in the stated order (products_*). The model is a hand port tied by "
-              "a correspondence check that runs the real generators on seeded parameter combinations and diffs bit patterns / exception kinds.")
+              "(fuel_enough) and its outcome (value / ZeroDivisionError / AssertionError / IndexError) is characterised per branch as a function of "
+              "the sample counts (outcome_*, total_partial); for EVERY input: no subnormals unless requested and strictly increasing output when "
+              "unique (no_subnormal, sorted_unique); for every successful call with user bounds other than a zero bound of the wrong sign: all "
+              "samples within the (permitted-adjusted) bounds, non-decreasing, adjacent same-sign samples equally spaced up to one unit "
+              "(within_partial, sorted_nonunique_partial, uniform_partial); bounds (and zero when requested) contained when each side gets >= 2 "
+              "samples (contains_bounds_partial); contents of the unbounded branch (within_unbounded, contains_unbounded); pair/triple/complex "
+              "constructors equal the Cartesian products in the stated order (products_*). Each excluded input class has a negation witness "
+              "(witness_*) replayed on the real code and a known_findings entry. The model is a hand port tied by a correspondence check that "
+              "runs the real generators on seeded parameter combinations and diffs bit patterns / exception kinds.")
 LEVEL_NOTE = ("Trusted: Lean kernel (axioms propext, Classical.choice, Quot.sound); the hand model Models/Samples.lean (validated by correspondence each run); "
               "numpy view/unique/repeat/tile semantics; CPython's correctly rounded int true division. Spacing of the unbounded branch after sorting, dtype "
               "of the result and the target_func filters are decided by search only.")
